@@ -202,7 +202,7 @@ func (srv *Server) handler(w http.ResponseWriter, r *http.Request) {
 				} else {
 					hash = srv.findHash(m)
 				}
-				if strings.HasPrefix(hash, vers) || strings.HasPrefix(vers, hash) {
+				if hash != "" && (strings.HasPrefix(hash, vers) || strings.HasPrefix(vers, hash)) {
 					best = m.Version
 				}
 			}
